@@ -236,6 +236,58 @@ def r04_7(run, model):
     run.floor("guarded index sites in scanners", n, 10)
 
 
+def r04_8(run, model):
+    run.rule("R04.8", "a link input that lacks a dependency named in some unit's `deps` is an error before the back end runs: link_cores (or a "
+                      "function it calls before mono) looks every dependency up and returns Err when it is absent")
+    SEP = "crates/compiler/src/pipeline/separate.rs"
+    link = model.fn("link_cores", SEP)
+    stages = [c for c in S.calls(link.body, "mono")]
+    limit = (stages[0]["sp"][0], stages[0]["sp"][1]) if stages else (10 ** 9, 0)
+    cands = [link] + [g for g in model.fns(SEP) if g.body is not None and g is not link and any((c["sp"][0], c["sp"][1]) < limit for c in S.calls(link.body, g.name))]
+    found = []
+
+    def filled_from_deps(g):
+        """locals populated inside a loop over some unit's deps (a collection of all dependency names)"""
+        out = set()
+        for lp in S.find(g.body, "For"):
+            if ".deps" not in S.norm_ws(run.facts.text(SEP, lp["iter"]["sp"])):
+                continue
+            for c in S.walk(lp["body"]):
+                if c["k"] == "MethodCall":
+                    r = c["recv"]
+                    while r["k"] == "MethodCall":
+                        r = r["recv"]
+                    if r["k"] == "Path" and len(r["segs"]) == 1:
+                        out.add(r["segs"][0])
+        return out
+
+    for g in cands:
+        for loop in S.find(g.body, "For"):
+            it = S.norm_ws(run.facts.text(SEP, loop["iter"]["sp"]))
+            if ".deps" not in it and not (S.idents(loop["iter"]) & filled_from_deps(g)):
+                continue
+            if g is link and (loop["sp"][0], loop["sp"][1]) > limit:
+                continue
+            # lookups of the dependency and what their failure branch does
+            for l in S.find(loop["body"], "Local"):
+                if l.get("else") is not None and l.get("init") is not None and any(c["k"] == "MethodCall" and c["method"] == "get" for c in S.walk(l["init"])):
+                    rets = any(r.get("expr") is not None and S.callee_name(r["expr"]) == "Err" for r in S.find(l["else"], "Return"))
+                    found.append((g.name, "let-else", rets))
+            for iff in S.find(loop["body"], "If"):
+                ct = S.norm_ws(run.facts.text(SEP, iff["cond"]["sp"]))
+                if re.fullmatch(r"!\w+\.contains_key\(&?\w+\)", ct):
+                    rets = any(r.get("expr") is not None and S.callee_name(r["expr"]) == "Err" for r in S.find(iff["then"], "Return"))
+                    found.append((g.name, "contains_key", rets))
+            for c in S.walk(loop["body"]):
+                if c["k"] == "Try" and any(x["k"] == "MethodCall" and x["method"] in ("ok_or_else", "ok_or") for x in S.walk(c["expr"])) and \
+                        any(x["k"] == "MethodCall" and x["method"] == "get" for x in S.walk(c["expr"])):
+                    found.append((g.name, "ok_or_else?", True))
+    ok = any(r for _, _, r in found)
+    run.ob("R04.8", "link_cores|missing dependency is rejected", ok, site(SEP, link.node["sp"]),
+           f"dependency lookups before the back end: {found or 'none'}",
+           witness="goml link Main.core Geo.core without Shape.core: the Go back end panics ('Cannot resolve variant name') or emits calls to undefined functions")
+
+
 def run(run, model):
     mir = Mir(run.facts)
     an = run.try_rule(r04_1, model)
@@ -244,9 +296,7 @@ def run(run, model):
     run.try_rule(r04_4, model, mir)
     run.try_rule(r04_5, model, mir)
     run.try_rule(r04_7, model)
-    from rules import c15
-    run.rule("R04.8", "a link input that lacks a pinned dependency is an error, not a crash: shared with C15 R15.4")
-    run.try_rule(c15.r15_4, model)
+    run.try_rule(r04_8, model)
     from rules import c07
     run.rule("R04.9", "specialisation neither panics on a supported type former nor recurses without bound: shared with C07 R07.1 / R07.5")
     run.try_rule(c07.r07_1, model)
